@@ -18,6 +18,7 @@ var seedfix5 = map[string]func(*Ctx){
 	"C17": seedfix5C17, "C18": seedfix5C18, "C19": seedfix5C19, "C20": seedfix5C20, "C21": seedfix5C21,
 	"C24": seedfix5C24, "C25": seedfix5C25, "C26": seedfix5C26, "C28": seedfix5C28, "C30": seedfix5C30,
 	"C31": seedfix5C31, "C35": seedfix5C35, "C36": seedfix5C36, "C38": seedfix5C38, "C40": seedfix5C40,
+	"C41": releaseLoopsCoverZero,
 }
 
 // fieldWriters: short names of the functions that store to a field of that name (stores into a
@@ -269,6 +270,7 @@ func resolveResultAfterCheck(c *Ctx, rule string) {
 
 func seedfix5C04(c *Ctx) {
 	u, r := c.U, c.R
+	requestIDReadVerbatim(c)
 	// R-HANDLER-ERROR-IN-STREAM: over HTTP a handler's error is answered by the logs-then-exception
 	// stream, never by the bare error responder (which drops the logs the handler emitted).
 	if fn := c.Fn("R-HANDLER-ERROR-IN-STREAM", "(*HttpServer).handleUnary"); fn != nil {
@@ -290,6 +292,7 @@ func seedfix5C04(c *Ctx) {
 
 func seedfix5C37(c *Ctx) {
 	u, r := c.U, c.R
+	producerErrIsReported(c)
 	// R-UNARY-ERR-RECORDED: whenever serveUnary writes an exception batch, the error it returns to
 	// the dispatch hook is the one written (non-nil).
 	if fn := c.Fn("R-UNARY-ERR-RECORDED", "(*Server).serveUnary"); fn != nil {
@@ -665,6 +668,8 @@ func seedfix5C14(c *Ctx) { unboundCursorMinted(c, "R-CURSOR-ALWAYS-BOUND") }
 func seedfix5C15(c *Ctx) {
 	u, r := c.U, c.R
 	clientKeepsCallToken(c, "R-CLIENT-KEEPS-CALL-TOKEN")
+	// an expired or unreadable call token refuses the continuation, cancel turns included
+	callTokenRequired(c, "R-CALL-TOKEN-REQUIRED")
 	// R-CACHE-ENTRIES-IMMUTABLE: callStateCache.put never rewrites the key or value of an element
 	// that is already indexed (eviction removes; it does not recycle in place).
 	if fn := c.Fn("R-CACHE-ENTRIES-IMMUTABLE", "(*callStateCache).put"); fn != nil {
@@ -675,7 +680,16 @@ func seedfix5C15(c *Ctx) {
 				return
 			}
 			fa, ok := st.Addr.(*ssa.FieldAddr)
-			if !ok || !strings.HasSuffix(typeShort(derefType(fa.X.Type())), "callStateEntry") {
+			if !ok {
+				// `*entry = callStateEntry{…}`: the whole indexed entry, key included, is overwritten
+				if _, isAlloc := st.Addr.(*ssa.Alloc); !isAlloc && strings.HasSuffix(typeShort(derefType(st.Addr.Type())), "callStateEntry") {
+					if _, isStruct := derefType(st.Addr.Type()).Underlying().(*types.Struct); isStruct {
+						bad = "*" + u.Describe(st.Addr) + " <- " + u.Describe(st.Val)
+					}
+				}
+				return
+			}
+			if !strings.HasSuffix(typeShort(derefType(fa.X.Type())), "callStateEntry") {
 				return
 			}
 			if _, isAlloc := fa.X.(*ssa.Alloc); isAlloc {
@@ -732,6 +746,62 @@ func seedfix5C21(c *Ctx) {
 		})
 		if n == 0 {
 			r.Undec("R-LOGS-NEVER-DATA", "parseIPCStream", u.Pos(fn.Pos()), "log-envelope discard not found")
+		}
+		// path form: once a record is known to be zero-row with a log level, no path
+		// reaches the append to the data batches before the next record is read.
+		var appendBlocks, headers []*ssa.BasicBlock
+		for _, st := range u.StoresToField(fn, "parsedClientStream", "batches") {
+			appendBlocks = append(appendBlocks, st.Block())
+		}
+		for _, cs := range u.Calls(fn, HasSuffix("ipc.Reader).Next")) {
+			headers = append(headers, cs.Instr.Block())
+		}
+		isLogKnown := func(b *ssa.BasicBlock) bool {
+			if b == nil || len(b.Instrs) == 0 {
+				return false
+			}
+			rows, lvl := false, false
+			for _, g := range u.GuardStrings(b.Instrs[0]) {
+				if strings.Contains(g, "NumRows") && strings.HasSuffix(g, " == 0)") {
+					rows = true
+				}
+				if strings.Contains(g, "\"vgi_rpc.log_level\"] != \"\")") {
+					lvl = true
+				}
+			}
+			return rows && lvl
+		}
+		if len(appendBlocks) > 0 && len(headers) > 0 {
+			m := 0
+			for _, b := range fn.Blocks {
+				if !isLogKnown(b) || isLogKnown(b.Idom()) {
+					continue
+				}
+				m++
+				seen := map[*ssa.BasicBlock]bool{}
+				for _, h := range headers {
+					seen[h] = true
+				}
+				hit := false
+				var walk func(x *ssa.BasicBlock)
+				walk = func(x *ssa.BasicBlock) {
+					if seen[x] || hit {
+						return
+					}
+					seen[x] = true
+					for _, a := range appendBlocks {
+						if a == x {
+							hit = true
+							return
+						}
+					}
+					for _, s := range x.Succs {
+						walk(s)
+					}
+				}
+				walk(b)
+				r.Check(!hit, "R-LOGS-NEVER-DATA", "parseIPCStream|log-region#"+itoa(m), u.Pos(b.Instrs[0].Pos()), "a zero-row record with a log level cannot reach the data append", "a record already known to be zero-row with a log level can still reach the append to the data batches (some further condition sends it on): the caller receives a log envelope as a data batch")
+			}
 		}
 	}
 	// R-EXCEPTION-SCAN-WHOLE-STREAM: the scan for an exception on a differing schema loops over the stream.
@@ -890,6 +960,95 @@ func seedfix5C19(c *Ctx) {
 		}
 	}
 	r.Floor("R-BUDGET-AFTER-BODY", 2)
+	softCapUnconditional(c)
+}
+
+// softCapUnconditional (R-SOFT-CAP-UNCONDITIONAL): the producer loop's
+// (false, nil) hand-over on `bytes written >= max_response_bytes` is decided
+// by that comparison, "a cap is set" and "there is a buffer" alone. Any other
+// conjunct of the same short-circuit chain makes some turns run past the cap.
+func softCapUnconditional(c *Ctx) {
+	u, r := c.U, c.R
+	const rule = "R-SOFT-CAP-UNCONDITIONAL"
+	fn := u.Func("(*HttpServer).runProduceLoopCapped")
+	if fn == nil {
+		return // R-PRODUCER-SOFT-CAP reports the missing loop
+	}
+	n := 0
+	for _, b := range fn.Blocks {
+		if len(b.Instrs) == 0 {
+			continue
+		}
+		ifi, ok := b.Instrs[len(b.Instrs)-1].(*ssa.If)
+		if !ok {
+			continue
+		}
+		cmp := strings.Join(u.guardAtoms(ifi.Cond, true), " ")
+		if !strings.Contains(cmp, "maxResponseBytes") || !(strings.Contains(cmp, " >= ") || strings.Contains(cmp, " > ") || strings.Contains(cmp, " <= ") || strings.Contains(cmp, " < ")) || strings.Contains(cmp, "maxResponseBytes > 0)") {
+			continue
+		}
+		// which successor is the (false, nil) exit
+		var skip *ssa.BasicBlock
+		for i, s := range b.Succs {
+			if len(s.Instrs) == 0 {
+				continue
+			}
+			if ret, isR := s.Instrs[len(s.Instrs)-1].(*ssa.Return); isR && len(ret.Results) == 2 && len(s.Preds) == 1 {
+				if b0, isB := ret.Results[0].(*ssa.Const); isB && b0.Value != nil && b0.Value.String() == "false" {
+					skip = b.Succs[1-i]
+				}
+			}
+		}
+		if skip == nil {
+			continue
+		}
+		n++
+		var atoms []string
+		head := b
+		for len(head.Preds) == 1 {
+			p := head.Preds[0]
+			pi, isIf := p.Instrs[len(p.Instrs)-1].(*ssa.If)
+			if !isIf || len(p.Succs) != 2 {
+				break
+			}
+			var other *ssa.BasicBlock
+			truth := true
+			if p.Succs[0] == head {
+				other = p.Succs[1]
+			} else {
+				other, truth = p.Succs[0], false
+			}
+			if other != skip {
+				break
+			}
+			atoms = append(atoms, u.guardAtoms(pi.Cond, truth)...)
+			head = p
+		}
+		outer := map[string]bool{}
+		if len(head.Instrs) > 0 {
+			for _, g := range u.GuardStrings(head.Instrs[len(head.Instrs)-1]) {
+				outer[g] = true
+			}
+		}
+		foreign := ""
+		for _, a := range atoms {
+			if outer[a] || strings.Contains(a, "maxResponseBytes") {
+				continue
+			}
+			if strings.HasSuffix(a, " != nil)") {
+				x := strings.TrimSuffix(strings.TrimPrefix(a, "("), " != nil)")
+				if strings.Contains(cmp, "Len("+x+")") {
+					continue
+				}
+			}
+			foreign = a
+		}
+		r.Check(foreign == "", rule, "runProduceLoopCapped|soft-cap#"+itoa(n), u.Pos(ifi.Cond.Pos()), "the hand-over depends only on the cap, the buffer and the byte comparison ("+itoa(len(atoms))+" other conjunct(s) examined)", "the max_response_bytes hand-over is additionally conditional on "+foreign+": a turn for which that is false keeps producing past the cap")
+	}
+	if n == 0 {
+		r.Undec(rule, "runProduceLoopCapped", u.Pos(fn.Pos()), "no comparison of the bytes written with max_response_bytes ends the turn")
+	}
+	r.Floor(rule, 1)
 }
 
 func seedfix5C20(c *Ctx) {
@@ -973,6 +1132,7 @@ func seedfix5C24(c *Ctx) {
 
 func seedfix5C25(c *Ctx) {
 	u, r := c.U, c.R
+	nonceNeverBulkForgotten(c)
 	// R-AGE-IN-SECONDS: the proof's age is judged in whole seconds; the parsed timestamp is never
 	// scaled (seconds × 1e9 wraps for far-future values).
 	if fn := c.Fn("R-AGE-IN-SECONDS", "VerifyProof"); fn != nil {
@@ -1142,6 +1302,47 @@ func seedfix5C30(c *Ctx) {
 	}
 	r.Floor("R-THRESHOLD-AGREES", 1)
 	r.Floor("R-SCAN-OWN-METADATA", 1)
+	decodedCapProvenance(c)
+}
+
+// decodedCapProvenance (R-DECODED-CAP-PROVENANCE): the bound handed to the
+// capped zstd decoder of a fetched payload comes, through parameters and the
+// config accessor, from ExternalLocationConfig.MaxDecompressedBytes and from
+// no other limit of that config.
+func decodedCapProvenance(c *Ctx) {
+	u, r := c.U, c.R
+	const rule = "R-DECODED-CAP-PROVENANCE"
+	fn := c.Fn(rule, "fetchExternalData")
+	if fn == nil {
+		return
+	}
+	n := 0
+	for _, f := range WithAnon(fn) {
+		for _, cs := range u.Calls(f, Is("decompressZstdCapped")) {
+			if len(cs.Common().Args) < 2 {
+				continue
+			}
+			n++
+			os := u.Origins(cs.Arg(1), &OriginOpts{Into: true})
+			sum := OriginSummary(os)
+			right, wrong := false, ""
+			for _, o := range os {
+				switch {
+				case strings.Contains(o.Desc, "MaxDecompressedBytes"):
+					right = true
+				case strings.Contains(o.Desc, "ExternalLocationConfig.Max") || strings.Contains(o.Desc, "ExternalLocationConfig.Externalize"):
+					wrong = o.Desc
+				}
+			}
+			key := "fetchExternalData|decode-cap#" + itoa(n)
+			if os == nil || (!right && wrong == "") {
+				r.Undec(rule, key, u.Pos(cs.Instr.Pos()), "cannot trace the decoder bound to a config field: "+sum)
+				continue
+			}
+			r.Check(right && wrong == "", rule, key, u.Pos(cs.Instr.Pos()), "decoder bound comes from MaxDecompressedBytes", "the bound of the capped decoder traces to "+wrong+" ("+sum+"): the decoded payload is limited by the wrong one of the configured limits")
+		}
+	}
+	r.Floor(rule, 1)
 }
 
 func seedfix5C31(c *Ctx) {
@@ -1189,6 +1390,7 @@ func seedfix5C35(c *Ctx) {
 
 func seedfix5C36(c *Ctx) {
 	u, r := c.U, c.R
+	pointerKeysStrippedByName(c)
 	// R-READ-BOUND-IS-SEGMENT: ReadBatch bounds a region by the segment size itself.
 	if fn := c.Fn("R-READ-BOUND-IS-SEGMENT", "(*ShmSegment).ReadBatch"); fn != nil {
 		n := 0
@@ -1291,6 +1493,7 @@ func seedfix5C38(c *Ctx) {
 
 func seedfix5C16(c *Ctx) {
 	u, r := c.U, c.R
+	uploadedBatchVerbatim(c)
 	// R-CANCEL-BY-KEY-ALONE: a continuation is a cancel exactly when it carries the cancel key
 	// (the pipe loop goes by the key alone; the batch's contents play no part).
 	if fn := c.Fn("R-CANCEL-BY-KEY-ALONE", "(*HttpServer).handleStreamExchange"); fn != nil {
@@ -1414,6 +1617,7 @@ func seedfix5C43(c *Ctx) {
 	if u == nil {
 		return
 	}
+	guardTestsWhatIsUsed(c, u)
 	end := u.Func("(*otelHook).OnDispatchEnd")
 	if end == nil {
 		return
@@ -1445,6 +1649,8 @@ func seedfix5C43(c *Ctx) {
 
 func seedfix5C40(c *Ctx) {
 	u, r := c.U, c.R
+	// the per-session lock is what keeps two requests of one session off the same state
+	releaseDeferredOnly(c)
 	// R-REDACT-COPIES: the default claim policy never writes into the map it was given
 	// (authenticators hand the same claims map to every request of a principal).
 	if fn := c.Fn("R-REDACT-COPIES", "RedactClaims"); fn != nil {
